@@ -2,7 +2,7 @@
 
 entries "exprE" / "bcastE" of the driver (lean/ALV/Model/C01Exc.lean, Spec/C01Exc.lean): the Lean model is handed a finite
 oracle table `bad` = the applications f(args) (over atom ids) on which python raises, and answers with the outcome of every
-next() call (item / exception / StopIteration), of a script of reads (next / take(k)) and with the applications it asked the
+next() call (item / exception / StopIteration), of a script of reads (next / take(k) / peek(k)) and with the applications it asked the
 oracle about (`queried`).  The table is SETTLED by rounds: start from the empty table; evaluate every queried application
 with python's operator.* on the real elements; add those that raise; ask again — until every queried application is in the
 table iff python raises on it.  (`settle` does the rounds for a whole batch with one driver run per round; `compare`
@@ -233,6 +233,8 @@ def read_script(res, reads):
         try:
             if r[0] == "next":
                 out.append({"one": ["i", B().canon(next(iter(res)))]})
+            elif r[0] == "peek":
+                out.append({"took": {"ok": [B().canon(x) for x in res.peek(r[1])]}})
             else:
                 out.append({"took": {"ok": [B().canon(x) for x in res.take(r[1])]}})
         except StopIteration:
@@ -564,7 +566,8 @@ def rand_reads(rng, n):
             k = rng.choice([1, 2, 2, 3, 4])
             if used + k > n:
                 break
-            out.append(["take", k])
+            # `peek(k)` = `copy().take(k)`: costs k calls of the budget like `take(k)` (theorem exc_script: readsCost)
+            out.append(["peek" if rng.random() < 0.3 else "take", k])
             used += k
     return out
 
@@ -785,6 +788,8 @@ def tally(eng, c, io):
         eng.count("exc_shape", c.get("shape", "?"))
         eng.count("exc_root", p.get("d", p["k"] + (":" + p["l"] if p["k"] == "meth" else "")))
         eng.count("exc_oracle_table_size", min(len(c.get("bad", [])), 12))
+        for r, o in zip(c.get("reads", []), io.get("script", []) if isinstance(io, dict) else []):
+            eng.count("exc_script_read_kind", r[0] + (": raised" if "err" in o.get("took", {}) or o.get("one", [""])[0] == "r" else ""))
         if "err" in io:
             eng.count("exc_impl_refusal", io["err"])
             return
